@@ -3,6 +3,6 @@ CONSTANTS
   Sym = {1, 2}
   MaxT = 6
 SPECIFICATION Spec
-INVARIANTS Final Decided ShiftAndMeaning KmpMeaning LpsLemma BomLemma HorspoolLemma
+INVARIANTS CombLemma Final Decided ShiftAndMeaning KmpMeaning LpsLemma BomLemma HorspoolLemma
 PROPERTY Progress
 CHECK_DEADLOCK FALSE
